@@ -138,7 +138,8 @@ def pref(tval):
 
 
 def job_class(args):
-    n, shape, lay, nds, alpha, first = args
+    n, shape, lay, nds, alpha, first = args[:6]
+    salpha = args[6] if len(args) > 6 else alpha          # level of the wrapped Student test (may differ from the correction's)
     from valjean.eponine.dataset import Dataset
     from valjean.gavroche.stat_tests.student import TestStudent
     from valjean.gavroche.stat_tests.bonferroni import TestBonferroni, TestHolmBonferroni
@@ -158,15 +159,17 @@ def job_class(args):
     for rest in itertools.product(TVALS, repeat=n * nds - 1):
         tvals = (first,) + rest
         others = [mkds(list(tvals[k * n:(k + 1) * n]), [1.0] * n) for k in range(nds)]
-        case = {'t-values per dataset': [list(tvals[k * n:(k + 1) * n]) for k in range(nds)], 'shape': shape, 'layout': lay, 'alpha': alpha}
-        stu = TestStudent(dsref, *others, name='s', alpha=alpha)
+        case = {'t-values per dataset': [list(tvals[k * n:(k + 1) * n]) for k in range(nds)], 'shape': shape, 'layout': lay, 'alpha': alpha,
+                'student alpha': salpha}
+        stu = TestStudent(dsref, *others, name='s', alpha=salpha)
         rbon = TestBonferroni(name='b', test=stu, alpha=alpha).evaluate()
         rhol = TestHolmBonferroni(name='h', test=stu, alpha=alpha).evaluate()
         rstu = stu.evaluate()
         nont = len(set(map(repr, tvals))) < len(tvals) or any(math.isnan(t) or math.isinf(t) or t == 0 for t in tvals) or lay != 'C'
         rep.case(nontrivial=(tuple(map(repr, tvals)), shape, lay, nds, alpha) if nont else None,
                  outcome=('class', bool(rstu), bool(rbon), bool(rhol)))
-        tag = f"{'nan' if any(math.isnan(t) for t in tvals) else 'nonan'}|layout={lay}|ndim={len(shape)}|nds={nds}"
+        tag = f"{'nan' if any(math.isnan(t) for t in tvals) else 'nonan'}|layout={lay}|ndim={len(shape)}|nds={nds}" + \
+            ('' if salpha == alpha else '|student-level-differs')
         level = alpha / 2
         anyb = anyh = False
         for k in range(nds):
@@ -202,7 +205,7 @@ def job_class(args):
             rep.violate(f'C06|class|verdict|bonferroni|{tag}', f'verdict {bool(rbon)} but flagged={anyb}', case, size=len(tvals))
         if bool(rhol) != (not anyh):
             rep.violate(f'C06|class|verdict|holm|{tag}', f'verdict {bool(rhol)} but flagged={anyh}', case, size=len(tvals))
-        if bool(rstu) and not (bool(rbon) and bool(rhol)):
+        if salpha >= alpha and bool(rstu) and not (bool(rbon) and bool(rhol)):
             rep.violate(f'C06|class|binwise-pass-implies-corrections-pass|{tag}', f'Student passes bin by bin at alpha={alpha} but Bonferroni={bool(rbon)} Holm={bool(rhol)}', case, size=len(tvals))
     rep.sample({'class': {'shape': shape, 'layout': lay, 'n_datasets': nds, 'alpha': alpha, 't-values': [first] + [2.7] * (n * nds - 1)}})
     return rep
@@ -230,6 +233,12 @@ def run(tier, seed):
             for lay in ('C', 'F', 'T'):
                 if tier == 'thorough' or alpha == 0.05:
                     jobs.append((job_class, (4, (2, 2), lay, 1, alpha, first)))
+            # the wrapped Student test has its own level (default 0.01): the corrections judge the p-values, not its verdict
+            for salpha in (0.001, 0.2):
+                if salpha != alpha and (tier == 'thorough' or alpha == 0.05):
+                    jobs.append((job_class, (1, (), 'C', 1, alpha, first, salpha)))
+                    jobs.append((job_class, (3, (3,), 'C', 1, alpha, first, salpha)))
+                    jobs.append((job_class, (2, (2,), 'C', 2, alpha, first, salpha)))
             if tier == 'thorough':
                 jobs.append((job_class, (3, (3,), 'C', 2, alpha, first)))
                 jobs.append((job_class, (4, (4,), 'C', 1, alpha, first)))
